@@ -117,6 +117,7 @@ func c05(p *an.Prog, r *an.R, tier string) {
 	r.Floor("C05.R1.rebuild-literals", 10, lits)
 	c05Simplify(p, r)
 	c05Identity(p, r, rewriters)
+	c05Fold(p, r)
 }
 
 // c05Simplify: the per-shard simplification of repository atoms counts a
@@ -216,4 +217,70 @@ func c05Identity(p *an.Prog, r *an.R, rewriters []struct{ pkg, fn string }) {
 		}
 	}
 	r.Floor("C05.R3.rewriters", 10, n)
+}
+
+// c05Fold: which wrapper nodes evalConstants may replace by the constant their child folded to. Type and Boost only
+// say what kind of result is wanted / how it is scored; every other wrapper (Symbol, ...) restricts the set of
+// matching documents, so `wrapper(TRUE)` is not TRUE.
+func c05Fold(p *an.Prog, r *an.R) {
+	r.Rule("C05.R4", "evalConstants returns the folded child in place of the node only in the clauses for *query.Type and *query.Boost (Not inverts it, And/Or have their own folding); no other wrapper is folded away")
+	f := p.Func("query", "evalConstants")
+	d := p.Decl(f)
+	if !r.Anchor(d != nil, "query.evalConstants") {
+		return
+	}
+	info := d.Pkg.TypesInfo
+	r.Fn(an.FuncName(f))
+	allowed := map[string]bool{"Type": true, "Boost": true}
+	n := 0
+	for _, ts := range an.TypeSwitches(info, d.Decl.Body) {
+		for _, cc := range ts.AllClauses {
+			if len(cc.List) != 1 {
+				continue
+			}
+			tn := an.NamedOf(info.Types[cc.List[0]].Type)
+			if tn == nil {
+				continue
+			}
+			// `return ch` where ch was assigned from evalConstants(<child>)
+			passes := false
+			var at ast.Node
+			for _, st := range cc.Body {
+				ast.Inspect(st, func(m ast.Node) bool {
+					rs, ok := m.(*ast.ReturnStmt)
+					if !ok || len(rs.Results) != 1 {
+						return true
+					}
+					res := ast.Unparen(rs.Results[0])
+					if c, ok := res.(*ast.CallExpr); ok && an.Callee(info, c) == f {
+						passes, at = true, rs
+					}
+					if id, ok := res.(*ast.Ident); ok {
+						obj := info.ObjectOf(id)
+						for _, st2 := range cc.Body {
+							ast.Inspect(st2, func(k ast.Node) bool {
+								as, ok := k.(*ast.AssignStmt)
+								if !ok || len(as.Lhs) != 1 || len(as.Rhs) != 1 || !isIdentOf(info, as.Lhs[0], obj) {
+									return true
+								}
+								if c, ok := ast.Unparen(as.Rhs[0]).(*ast.CallExpr); ok && an.Callee(info, c) == f {
+									passes, at = true, rs
+								}
+								return true
+							})
+						}
+					}
+					return true
+				})
+			}
+			if !passes {
+				continue
+			}
+			n++
+			name := tn.Obj().Name()
+			r.Check(allowed[name], "C05.R4", "query.evalConstants/*query."+name+"/folded-to-its-child", at.Pos(), "only Type and Boost are replaced by the constant their child folded to",
+				"evalConstants replaces a *query."+name+" node by the constant its child folded to: "+name+" restricts which documents match, so "+name+"(TRUE) is not TRUE - simplification selects documents the original query does not (and drops them under negation)")
+		}
+	}
+	r.Floor("C05.R4.folding-wrappers", 2, n)
 }
